@@ -4,6 +4,7 @@ CONSTANTS
   MaxPkts = 2
   Frames = {999}
   ZeroReads = TRUE
+  IdlePolls = 2
   MaxCuts = 1
   FixState = FALSE
   Emit = FALSE
